@@ -33,6 +33,9 @@ func goEnv() []string {
 	set("GOSUMDB", "off")
 	set("GOTOOLCHAIN", "local")
 	set("GOWORK", "off")
+	// the overlay also replaces one file in the module cache; the go command's
+	// package index of the module cache would hide its changed imports
+	set("GODEBUG", "goindex=0")
 	return env
 }
 
@@ -55,6 +58,7 @@ func build(name string, race bool) (*buildInfo, error) {
 	extra := map[string]string{
 		filepath.Join(repoRoot, "zz_verif_glue_test.go"): filepath.Join(verifRoot, "glue", "zz_verif_glue_test.go.txt"),
 	}
+	instr.Deps = depFiles()
 	res, err := instr.Tree(repoRoot, bdir, extra)
 	if err != nil {
 		return nil, fmt.Errorf("instrument: %w", err)
@@ -86,4 +90,22 @@ func build(name string, race bool) (*buildInfo, error) {
 		return nil, fmt.Errorf("go test -c failed: %v\n%s", err, out.String())
 	}
 	return &buildInfo{Bin: bin, Sites: len(res.Sites), Files: res.Files, Secs: time.Since(start).Seconds(), Bypass: res.Bypass}, nil
+}
+
+// depFiles locates the dependency sources that are instrumented along with
+// gopatch: the import sorter of golang.org/x/tools, whose blank-line fix-up
+// loops for ever on some inputs (finding F28).
+func depFiles() []string {
+	cmd := exec.Command("go", "list", "-m", "-f", "{{.Dir}}", "golang.org/x/tools")
+	cmd.Dir = repoRoot
+	cmd.Env = goEnv()
+	out, err := cmd.Output()
+	if err != nil {
+		return nil
+	}
+	p := filepath.Join(strings.TrimSpace(string(out)), "internal", "imports", "sortimports.go")
+	if _, err := os.Stat(p); err != nil {
+		return nil
+	}
+	return []string{p}
 }
